@@ -13,6 +13,11 @@
 // or absent. Raw upcasters append their edge id to a JSON array in the data, so the
 // composition is visible in what the callback receives.
 //
+// Each registry is also built up and torn down *between replays of one bus*: a replay after
+// every registration and after every ClearUpcastsForType, each compared with the
+// interpreter on the registry as it is then (a resolved chain must not be remembered across
+// a change of the registry).
+//
 // Oracle = the reference interpreter `interpret`: follow the first-registered edge of
 // the current type until a type without upcaster is reached. The ReplayWithUpcast
 // callback must see exactly that data and type, with Offset and Timestamp of the stored
@@ -65,6 +70,10 @@ type rawCase struct {
 	Edges   []edge   `json:"edges"`
 	Variant string   `json:"variant"` // see variants
 	Fail    int      `json:"fail_edge"`
+	// Incremental: replay and compare after *every* registration (the registry grows
+	// between replays of one bus) and then after clearing the upcasters of one source type
+	// after the other (it shrinks) - not only once after the whole registry is set up.
+	Incremental bool `json:"incremental,omitempty"`
 }
 
 var variants = []string{
@@ -351,149 +360,181 @@ func runRaw(rc rawCase) (vs []viol, evals, nontrivial int) {
 	if rc.Variant == variants[1] {
 		bus.SetUpcastErrorHandler(handler)
 	}
+	stage := "" // appended to every signature: which replay of an incremental case
+	bad0 := bad
+	bad = func(kind, sig, f string, a ...any) { bad0(kind, sig+stage, f, a...) }
+	observe := func() {
+		seen, pending = nil, nil
+		var rerr error
+		func() {
+			defer func() {
+				if r := recover(); r != nil {
+					bad("panic", "ReplayWithUpcast panicked", "%v", r)
+				}
+			}()
+			rerr = bus.ReplayWithUpcast(context.Background(), eventbus.OffsetOldest, func(ev *eventbus.StoredEvent) error {
+				c := cbSeen{ev: *ev, handlers: pending}
+				c.ev.Data = append([]byte(nil), ev.Data...)
+				pending = nil
+				seen = append(seen, c)
+				return nil
+			})
+		}()
+		if rerr != nil {
+			bad("replay-error", "ReplayWithUpcast returned an error although the callback returned nil", "%v", rerr)
+		}
+		if len(seen) != len(snapshot) {
+			bad("callback-count", "ReplayWithUpcast did not call the callback once per stored event", "%d callbacks for %d stored events", len(seen), len(snapshot))
+			evals += len(snapshot)
+			return
+		}
+		if len(pending) != 0 {
+			bad("handler-count", "upcast error handler called after the last event was delivered", "%d calls", len(pending))
+		}
+		routeOf := func() string {
+			switch rc.Variant {
+			case variants[1]:
+				return "handler set by SetUpcastErrorHandler"
+			case variants[2]:
+				return "no handler"
+			}
+			return "handler set by WithUpcastErrorHandler"
+		}
+		for i, st := range snapshot {
+			evals++
+			x := interpret(g, st.Type, st.Data, rc.Fail)
+			if x.Chain > 0 {
+				nontrivial++
+			}
+			got := seen[i]
+			where := fmt.Sprintf("stored event %d (type %s, document %d)", i, st.Type, i/len(rc.Names))
+			shape := fmt.Sprintf("chain of %d", x.Chain)
+			if x.Multi {
+				shape += ", a source with two upcasters on it"
+			}
+			// the stored event itself must not have been modified in the store
+			if now := stored[i]; now.Type != st.Type || !bytes.Equal(now.Data, st.Data) || now.Offset != st.Offset || !now.Timestamp.Equal(st.Timestamp) {
+				bad("store-modified", "the event held by the store was modified by the upcasting replay", "%s: now %s %s", where, now.Type, now.Data)
+			}
+			if got.ev.Offset != st.Offset {
+				bad("offset", "callback saw a different Offset than the stored event's ("+upcastOrNot(x)+")", "%s: got %q want %q", where, got.ev.Offset, st.Offset)
+			}
+			if !got.ev.Timestamp.Equal(st.Timestamp) || got.ev.Timestamp.String() != st.Timestamp.String() {
+				bad("timestamp", "callback saw a different Timestamp than the stored event's ("+upcastOrNot(x)+")", "%s: got %v want %v", where, got.ev.Timestamp, st.Timestamp)
+			}
+			switch {
+			case x.Failed:
+				// signature facets: first step or a later one (something was already applied);
+				// whether a source with two upcasters is involved. The exact position and
+				// chain length are in the detail.
+				fs := "failure at the first step of a chain"
+				if x.Steps > 0 {
+					fs = "failure at a later step of a chain"
+				}
+				if x.Multi {
+					fs += " (a source with two upcasters on it)"
+				}
+				where += fmt.Sprintf(", failing step %d of a %s", x.Steps+1, shape)
+				if got.ev.Type != st.Type || !bytes.Equal(got.ev.Data, st.Data) {
+					what := "a different event"
+					if bytes.Equal(got.ev.Data, garbage) {
+						what = "the data the failing upcaster returned"
+					} else if tr := trailOf(got.ev.Data); tr != "[]" && !strings.HasPrefix(tr, "unparseable") {
+						what = "a partly upcast event"
+					} else if got.ev.Type != st.Type && bytes.Equal(got.ev.Data, st.Data) {
+						what = "the stored data under another type"
+					}
+					bad("all-or-nothing", fs+": callback saw "+what+" instead of the stored event",
+						"%s: callback got type %s data %s\nwant the stored event: type %s data %s", where, got.ev.Type, got.ev.Data, st.Type, st.Data)
+				}
+				want := 1
+				if !withHandler {
+					want = 0
+				}
+				if len(got.handlers) != want {
+					bad("handler-count", fmt.Sprintf("%s: upcast error handler called %d times, want %d (%s)", fs, len(got.handlers), want, routeOf()),
+						"%s: handler calls %d", where, len(got.handlers))
+				} else if want == 1 {
+					hc := got.handlers[0]
+					if hc.typ != x.FailType || !bytes.Equal(hc.data, x.FailData) {
+						what := "other arguments"
+						switch {
+						case hc.typ == st.Type && bytes.Equal(hc.data, st.Data):
+							what = "the stored event's type and data"
+						case hc.typ == x.FailType:
+							what = "the right type but other data"
+						case bytes.Equal(hc.data, x.FailData):
+							what = "the right data but another type"
+						}
+						bad("handler-args", fs+": upcast error handler got "+what+" instead of the failing step's type and input data",
+							"%s: handler got (%s, %s)\nwant (%s, %s)", where, hc.typ, hc.data, x.FailType, x.FailData)
+					}
+					if hc.err == nil {
+						bad("handler-args", fs+": upcast error handler got a nil error", "%s", where)
+					} else if !errors.Is(hc.err, injected{x.FailID}) && !strings.Contains(hc.err.Error(), injected{x.FailID}.Error()) {
+						bad("handler-args", fs+": upcast error handler got an error that is not the failing upcaster's", "%s: %v", where, hc.err)
+					}
+				}
+			default:
+				if len(got.handlers) != 0 {
+					bad("handler-count", fmt.Sprintf("no step failed (%s): upcast error handler called %d times", shape, len(got.handlers)), "%s: %v", where, got.handlers[0].err)
+				}
+				if got.ev.Type == x.Type && bytes.Equal(got.ev.Data, x.Data) {
+					break
+				}
+				if x.Chain == 0 {
+					bad("untouched", "an event whose type has no upcaster reached the callback modified", "%s: got type %s data %s", where, got.ev.Type, got.ev.Data)
+					break
+				}
+				what := "other data"
+				switch {
+				case got.ev.Type == st.Type && bytes.Equal(got.ev.Data, st.Data):
+					what = "the stored event unchanged"
+				case got.ev.Type != x.Type && trailOf(got.ev.Data) == trailOf(x.Data):
+					what = "the right data under type " + relType(got.ev.Type, x.Type, st.Type)
+				case strings.HasPrefix(trailOf(x.Data), strings.TrimSuffix(trailOf(got.ev.Data), "]")) && trailOf(got.ev.Data) != trailOf(x.Data):
+					what = "a prefix of the chain"
+				case trailOf(got.ev.Data) != trailOf(x.Data) && !strings.HasPrefix(trailOf(got.ev.Data), "unparseable"):
+					what = "a different composition of upcasters"
+				}
+				bad("chain", "no step failed ("+shape+"): callback saw "+what+" instead of the first-registered chain applied to the end",
+					"%s: callback got type %s, upcasters applied %s, data %s\nwant type %s, upcasters %s, data %s", where, got.ev.Type, trailOf(got.ev.Data), got.ev.Data, x.Type, trailOf(x.Data), x.Data)
+			}
+		}
+	}
 	if rc.Variant != variants[3] {
-		for _, e := range rc.Edges {
+		if rc.Incremental {
+			g = up.NewGraph()
+		}
+		for k, e := range rc.Edges {
 			if err := eventbus.RegisterUpcastFunc(bus, e.From, e.To, mk(e)); err != nil {
 				// accept/reject is C16's subject; here it only makes the case unusable
 				bad("setup", "registration of an acyclic graph rejected (see C16)", "RegisterUpcastFunc(%s,%s): %v", e.From, e.To, err)
 				return vs, 0, 0
 			}
-		}
-	}
-
-	var rerr error
-	func() {
-		defer func() {
-			if r := recover(); r != nil {
-				bad("panic", "ReplayWithUpcast panicked", "%v", r)
-			}
-		}()
-		rerr = bus.ReplayWithUpcast(context.Background(), eventbus.OffsetOldest, func(ev *eventbus.StoredEvent) error {
-			c := cbSeen{ev: *ev, handlers: pending}
-			c.ev.Data = append([]byte(nil), ev.Data...)
-			pending = nil
-			seen = append(seen, c)
-			return nil
-		})
-	}()
-	if rerr != nil {
-		bad("replay-error", "ReplayWithUpcast returned an error although the callback returned nil", "%v", rerr)
-	}
-	if len(seen) != len(snapshot) {
-		bad("callback-count", "ReplayWithUpcast did not call the callback once per stored event", "%d callbacks for %d stored events", len(seen), len(snapshot))
-		return vs, len(snapshot), 0
-	}
-	if len(pending) != 0 {
-		bad("handler-count", "upcast error handler called after the last event was delivered", "%d calls", len(pending))
-	}
-	routeOf := func() string {
-		switch rc.Variant {
-		case variants[1]:
-			return "handler set by SetUpcastErrorHandler"
-		case variants[2]:
-			return "no handler"
-		}
-		return "handler set by WithUpcastErrorHandler"
-	}
-	for i, st := range snapshot {
-		evals++
-		x := interpret(g, st.Type, st.Data, rc.Fail)
-		if x.Chain > 0 {
-			nontrivial++
-		}
-		got := seen[i]
-		where := fmt.Sprintf("stored event %d (type %s, document %d)", i, st.Type, i/len(rc.Names))
-		shape := fmt.Sprintf("chain of %d", x.Chain)
-		if x.Multi {
-			shape += ", a source with two upcasters on it"
-		}
-		// the stored event itself must not have been modified in the store
-		if now := stored[i]; now.Type != st.Type || !bytes.Equal(now.Data, st.Data) || now.Offset != st.Offset || !now.Timestamp.Equal(st.Timestamp) {
-			bad("store-modified", "the event held by the store was modified by the upcasting replay", "%s: now %s %s", where, now.Type, now.Data)
-		}
-		if got.ev.Offset != st.Offset {
-			bad("offset", "callback saw a different Offset than the stored event's ("+upcastOrNot(x)+")", "%s: got %q want %q", where, got.ev.Offset, st.Offset)
-		}
-		if !got.ev.Timestamp.Equal(st.Timestamp) || got.ev.Timestamp.String() != st.Timestamp.String() {
-			bad("timestamp", "callback saw a different Timestamp than the stored event's ("+upcastOrNot(x)+")", "%s: got %v want %v", where, got.ev.Timestamp, st.Timestamp)
-		}
-		switch {
-		case x.Failed:
-			// signature facets: first step or a later one (something was already applied);
-			// whether a source with two upcasters is involved. The exact position and
-			// chain length are in the detail.
-			fs := "failure at the first step of a chain"
-			if x.Steps > 0 {
-				fs = "failure at a later step of a chain"
-			}
-			if x.Multi {
-				fs += " (a source with two upcasters on it)"
-			}
-			where += fmt.Sprintf(", failing step %d of a %s", x.Steps+1, shape)
-			if got.ev.Type != st.Type || !bytes.Equal(got.ev.Data, st.Data) {
-				what := "a different event"
-				if bytes.Equal(got.ev.Data, garbage) {
-					what = "the data the failing upcaster returned"
-				} else if tr := trailOf(got.ev.Data); tr != "[]" && !strings.HasPrefix(tr, "unparseable") {
-					what = "a partly upcast event"
-				} else if got.ev.Type != st.Type && bytes.Equal(got.ev.Data, st.Data) {
-					what = "the stored data under another type"
-				}
-				bad("all-or-nothing", fs+": callback saw "+what+" instead of the stored event",
-					"%s: callback got type %s data %s\nwant the stored event: type %s data %s", where, got.ev.Type, got.ev.Data, st.Type, st.Data)
-			}
-			want := 1
-			if !withHandler {
-				want = 0
-			}
-			if len(got.handlers) != want {
-				bad("handler-count", fmt.Sprintf("%s: upcast error handler called %d times, want %d (%s)", fs, len(got.handlers), want, routeOf()),
-					"%s: handler calls %d", where, len(got.handlers))
-			} else if want == 1 {
-				hc := got.handlers[0]
-				if hc.typ != x.FailType || !bytes.Equal(hc.data, x.FailData) {
-					what := "other arguments"
-					switch {
-					case hc.typ == st.Type && bytes.Equal(hc.data, st.Data):
-						what = "the stored event's type and data"
-					case hc.typ == x.FailType:
-						what = "the right type but other data"
-					case bytes.Equal(hc.data, x.FailData):
-						what = "the right data but another type"
+			if rc.Incremental {
+				g.Apply(up.Op{Kind: "reg", From: e.From, To: e.To}, e.ID)
+				if k < len(rc.Edges)-1 {
+					stage = " [replay after each registration: a replay between two registrations]"
+					observe()
+					if len(vs) > 0 {
+						return vs, evals, nontrivial
 					}
-					bad("handler-args", fs+": upcast error handler got "+what+" instead of the failing step's type and input data",
-						"%s: handler got (%s, %s)\nwant (%s, %s)", where, hc.typ, hc.data, x.FailType, x.FailData)
-				}
-				if hc.err == nil {
-					bad("handler-args", fs+": upcast error handler got a nil error", "%s", where)
-				} else if !errors.Is(hc.err, injected{x.FailID}) && !strings.Contains(hc.err.Error(), injected{x.FailID}.Error()) {
-					bad("handler-args", fs+": upcast error handler got an error that is not the failing upcaster's", "%s: %v", where, hc.err)
 				}
 			}
-		default:
-			if len(got.handlers) != 0 {
-				bad("handler-count", fmt.Sprintf("no step failed (%s): upcast error handler called %d times", shape, len(got.handlers)), "%s: %v", where, got.handlers[0].err)
-			}
-			if got.ev.Type == x.Type && bytes.Equal(got.ev.Data, x.Data) {
+		}
+	}
+	stage = ""
+	observe()
+	if rc.Incremental && len(vs) == 0 {
+		for _, src := range g.Sources() {
+			bus.ClearUpcastsForType(src)
+			g.Apply(up.Op{Kind: "cleartype", From: src}, 0)
+			stage = " [replay after ClearUpcastsForType of one source after the other]"
+			observe()
+			if len(vs) > 0 {
 				break
 			}
-			if x.Chain == 0 {
-				bad("untouched", "an event whose type has no upcaster reached the callback modified", "%s: got type %s data %s", where, got.ev.Type, got.ev.Data)
-				break
-			}
-			what := "other data"
-			switch {
-			case got.ev.Type == st.Type && bytes.Equal(got.ev.Data, st.Data):
-				what = "the stored event unchanged"
-			case got.ev.Type != x.Type && trailOf(got.ev.Data) == trailOf(x.Data):
-				what = "the right data under type " + relType(got.ev.Type, x.Type, st.Type)
-			case strings.HasPrefix(trailOf(x.Data), strings.TrimSuffix(trailOf(got.ev.Data), "]")) && trailOf(got.ev.Data) != trailOf(x.Data):
-				what = "a prefix of the chain"
-			case trailOf(got.ev.Data) != trailOf(x.Data) && !strings.HasPrefix(trailOf(got.ev.Data), "unparseable"):
-				what = "a different composition of upcasters"
-			}
-			bad("chain", "no step failed ("+shape+"): callback saw "+what+" instead of the first-registered chain applied to the end",
-				"%s: callback got type %s, upcasters applied %s, data %s\nwant type %s, upcasters %s, data %s", where, got.ev.Type, trailOf(got.ev.Data), got.ev.Data, x.Type, trailOf(x.Data), x.Data)
 		}
 	}
 	return vs, evals, nontrivial
@@ -847,6 +888,15 @@ func run(c *h.Check) {
 					report(vs, rc)
 				}
 			}
+			// the registry grows and shrinks between replays of one bus
+			rc := rawCase{Part: "raw", Names: names, Edges: append([]edge(nil), order...), Variant: variants[0], Fail: -1, Incremental: true}
+			vs, evals, nt := runRaw(rc)
+			c.Count("evaluations", int64(evals))
+			c.Count("transitions", int64(evals))
+			c.Count("traces_validated_against_impl", int64(evals))
+			c.Count("nontrivial", int64(nt))
+			c.Count("replays_between_registry_changes", 1)
+			report(vs, rc)
 		}
 		for _, g := range graphs(names) {
 			if c.TimeUp() {
